@@ -46,7 +46,7 @@ class Check(PropertyCheck):
     shard = 400
     rule = ("byte streams: exhaustive over the reserved-byte-rich alphabet {7E,7D,11,13,18,1A,5E,C0,00} up to a length bound under "
             "ALL 2^(n-1) chunkings; token streams built from valid frames (in/out of sequence, with escapes, RSTACK, ERROR), bad-CRC "
-            "frames, dangling escapes, control bytes and garbage, mutated by insert/delete/flip, under one-read / byte-by-byte / "
+            "frames, dangling / doubled / inserted escapes, control bytes and garbage, mutated by insert/delete/flip, under one-read / byte-by-byte / "
             "random chunkings; reads larger than the receive buffer; flag-free garbage for the memory bound. non-trivial = the "
             "stream contains a FLAG; distinct by (stream, chunking)")
     assumptions = ["transport open", "chunkings whose unterminated residue stays within MAX_BUFFER_SIZE (the property's quantifier)"]
@@ -115,6 +115,30 @@ class Check(PropertyCheck):
                     s[j] ^= 1 << rng.randrange(8)
             s = bytes(s)
             for mode in ("one", "bytes", "rand", "rand", "rand"):
+                cases.append(cut(s, rng, mode))
+        # damaged escape sequences inside otherwise valid frames: the escape byte doubled / tripled, an escape byte
+        # inserted before an ordinary byte, the escaped value replaced -- the CRC of the collapsed bytes would match
+        for i in range(60 if tier == "quick" else 1500):
+            pl = bytes(rng.choice([0x7E, 0x7D, 0x11, 0x13, 0x18, 0x1A]) if rng.random() < 0.6 else rng.randrange(256)
+                       for _ in range(rng.randrange(1, 5)))
+            w = bytearray(ashref.wire(("DATA", 0, 0, rng.randrange(8), pl)))
+            escs = [k for k in range(len(w) - 1) if w[k] == 0x7D]
+            if not escs:
+                continue
+            k = rng.choice(escs)
+            m = i % 4
+            if m == 0:
+                w.insert(k, 0x7D)
+            elif m == 1:
+                w.insert(k, 0x7D)
+                w.insert(k, 0x7D)
+            elif m == 2:
+                w[k + 1] = rng.choice([0x7D, 0x5D ^ 0x20, 0x00, 0x41])
+            else:
+                j = rng.randrange(len(w) - 1)
+                w.insert(j, 0x7D)
+            s = bytes(w) + ashref.wire(("DATA", 1, 0, 0, b"z"))
+            for mode in ("one", "bytes", "rand"):
                 cases.append(cut(s, rng, mode))
         # reads larger than the receive buffer that contain complete frames
         for nfr in ([12, 30] if tier == "quick" else [12, 20, 30, 60, 100]):
